@@ -22,10 +22,6 @@ theorem stepLa2_ring (σ0 σ : St) (t : Nat) (x : Th) (s : Nat) : (stepRun.stepL
   unfold stepRun.stepLa2; simp only []; repeat' split
   all_goals rfl
 
-theorem recvDropEnd_ring (σ : St) (t : Nat) (x : Th) (f : List Ord) : (stepRun.recvDropEnd σ t x f).ring = σ.ring := by
-  unfold stepRun.recvDropEnd; simp only []; repeat' split
-  all_goals rfl
-
 theorem startNotify2_ring (σ : St) (t : Nat) : (stepRun.startNotify2 σ t).ring = σ.ring := rfl
 
 set_option maxHeartbeats 1000000 in
@@ -39,7 +35,8 @@ theorem stepRun_ring_same (σ : St) (t inp : Nat) (h : (σ.th t).pc.ringChanging
   all_goals first
     | rfl
     | (simp only [sendDone_ring, recvDone_ring, afterNotify_ring, startNotify_ring, teardownStart_ring,
-        startWait_ring, checkDone_ring, waitDone_ring, stepLa2_ring, recvDropEnd_ring, startNotify2_ring,
+        startWait_ring, checkDone_ring, waitDone_ring, stepLa2_ring, startNotify2_ring, mgrDone_ring, freeTail_ring,
+        freeEnd_ring, recvDropTail_ring, sendDropTail_ring,
         ring_setTh, ring_goto, ring_gotoF, ring_setHd, ring_flush] <;> rfl)
 
 end MQ
@@ -85,9 +82,24 @@ theorem waitDone_neutral : ((waitDone σ t).th t).pc.neutral = true := by
 theorem checkDone_neutral (j seq : Nat) (ph : WPh) (b : Bool) : ((checkDone σ t j seq ph b).th t).pc.neutral = true := by
   unfold checkDone; repeat' split
   all_goals first | exact waitDone_neutral _ t | neutral_tac
-theorem recvDropEnd_neutral (x : Th) (f : List Ord) : ((stepRun.recvDropEnd σ t x f).th t).pc.neutral = true := by
-  unfold stepRun.recvDropEnd; (try simp only []); repeat' split
+theorem recvDropTail_neutral : ((recvDropTail σ t).th t).pc.neutral = true := by
+  unfold recvDropTail; (try simp only []); repeat' split
   all_goals first | (simp [teardownStart, PC.neutral, St.goto, St.setTh, upd]; done) | neutral_tac
+theorem sendDropTail_neutral : ((sendDropTail σ t).th t).pc.neutral = true := by
+  unfold sendDropTail; repeat' split
+  all_goals first | exact teardownStart_neutral σ t _ | neutral_tac
+theorem mgrDone_neutral (k : MK) : ((mgrDone σ t k).th t).pc.neutral = true := by
+  unfold mgrDone; (try simp only []); repeat' split
+  all_goals first
+    | exact sendDone_neutral σ t _
+    | exact recvDropTail_neutral _ t
+    | exact sendDropTail_neutral _ t
+    | neutral_tac
+theorem freeEnd_neutral (k : MK) : ((freeEnd σ t k).th t).pc.neutral = true := by
+  unfold freeEnd; split <;> exact mgrDone_neutral _ t _
+theorem freeTail_neutral (k : MK) : ((freeTail σ t k).th t).pc.neutral = true := by
+  unfold freeTail; repeat' split
+  all_goals first | exact mgrDone_neutral _ t _ | neutral_tac
 theorem startNotify2_neutral : ((stepRun.startNotify2 σ t).th t).pc.neutral = true := by
   unfold stepRun.startNotify2; neutral_tac
 end
@@ -100,7 +112,9 @@ namespace MQ
 def PC.srcNeutral : PC → Bool
   | .idle | .ret _ | .s0 | .m1 | .od _ | .nb1 _ | .nb2 _ | .nf _ _ | .r0 | .c1 _ _ _ | .c2 _ _ _ _ | .wy _ _ _
   | .wl _ _ | .wcvw _ _ | .wblk _ _ | .pk _ _ | .psl | .cs1 | .ds1 | .cr1 | .un1 | .dr1 | .rr3 _ | .rr4 | .rr5
-  | .isg | .arc _ | .tdb _ | .tdbd _ | .tm1 _ | .tm2 _ | .tm3 _ | .tmd _ | .tm4 _ | .tdr | .sy | .spl | .w0 _ => true
+  | .isg | .arc _ | .tdb _ | .tdbd _ | .tm1 _ | .tm2 _ | .tm3 _ | .tmd _ | .tm4 _ | .tdr | .tdm | .sy | .spl | .w0 _
+  | .u1 _ | .u2 _ _ | .u3 _ _ | .gt1 _ | .gt2 _ | .f1 _ _ | .f2 _ | .f3 _ | .f4 _ _ _ | .f5 _ | .f7 _ | .f8 _
+  | .f9 _ _ | .f10 _ | .rt1 _ => true
   | _ => false
 
 set_option maxHeartbeats 1000000 in
@@ -123,7 +137,9 @@ theorem stepRun_neutral (σ : St) (t inp : Nat) (h : (σ.th t).pc.srcNeutral = t
     | exact afterNotify_neutral _ t _
     | exact startNotify_neutral _ t _
     | exact teardownStart_neutral _ t _
-    | exact recvDropEnd_neutral _ t _ _
+    | exact mgrDone_neutral _ t _
+    | exact freeTail_neutral _ t _
+    | exact freeEnd_neutral _ t _
     | exact startNotify2_neutral _ t
     | (simp [PC.neutral, St.goto, St.gotoF, St.setTh, St.setHd, St.flush, upd, teardownStart]; done)
 
@@ -161,8 +177,12 @@ variable (σ : St) (t : Nat)
   neutral_not_add (startNotify_neutral σ t k)
 @[simp] theorem teardownStart_not_add (r : Res) : ((teardownStart σ t r).th t).pc.addPC = false :=
   neutral_not_add (teardownStart_neutral σ t r)
-@[simp] theorem recvDropEnd_not_add (x : Th) (f : List Ord) : ((stepRun.recvDropEnd σ t x f).th t).pc.addPC = false :=
-  neutral_not_add (recvDropEnd_neutral σ t x f)
+@[simp] theorem mgrDone_not_add (k : MK) : ((mgrDone σ t k).th t).pc.addPC = false :=
+  neutral_not_add (mgrDone_neutral σ t k)
+@[simp] theorem freeTail_not_add (k : MK) : ((freeTail σ t k).th t).pc.addPC = false :=
+  neutral_not_add (freeTail_neutral σ t k)
+@[simp] theorem freeEnd_not_add (k : MK) : ((freeEnd σ t k).th t).pc.addPC = false :=
+  neutral_not_add (freeEnd_neutral σ t k)
 @[simp] theorem startNotify2_not_add : ((stepRun.startNotify2 σ t).th t).pc.addPC = false :=
   neutral_not_add (startNotify2_neutral σ t)
 end
@@ -183,7 +203,7 @@ theorem stepRun_not_add (σ : St) (t inp : Nat) (h : (σ.th t).pc.addPC = false)
   all_goals (repeat' split)
   all_goals first
     | (simp only [sendDone_not_add, recvDone_not_add, checkDone_not_add, startWait_not_add, afterNotify_not_add,
-        startNotify_not_add, teardownStart_not_add, recvDropEnd_not_add, startNotify2_not_add, stepLa2_not_add]; done)
+        startNotify_not_add, teardownStart_not_add, mgrDone_not_add, freeTail_not_add, freeEnd_not_add, startNotify2_not_add, stepLa2_not_add]; done)
     | (simp [PC.addPC, th_goto, th_gotoF, th_setTh, th_flush, th_setHd]; done)
     | (rename_i heq; simp [heq, PC.addPC]; done)
     | (rename_i heq _; simp [heq, PC.addPC]; done)
